@@ -262,3 +262,14 @@ func vBWrite(f *os.File, b []byte) (int, error) {
 	}
 	return vFileWrite(f, b)
 }
+
+//verif:check C10,C20 stubs=lockfs,valuefile,restart reach=killed desc="restart after the process was killed while serving: the directory lock is a hard link, which the dead process cannot remove; a new process started on the same directory must nevertheless be able to take the lock (nobody else serves the directory), otherwise the node cannot restart without an operator deleting the file" bounds="one directory; lock taken, process killed (no unlock), lock attempted again by a new process"
+func VH_C10_restart_after_kill_lock() {
+	dir := vDir
+	vAssert(lockDir(dir) == nil, "first-process-locks")
+	// kill -9: no deferred unlockDir runs, the lock file stays; the process is gone
+	vReach("killed")
+	err := lockDir(dir)
+	vAssert(err == nil, "K-restart-after-kill-can-lock-the-directory")
+	vReach("end")
+}
